@@ -70,6 +70,7 @@ theorem delItemList_ok (f : Forest) (n : Bool) (m : Meta) (its : Items) (idx : I
   split; · exact hf
   split; · exact hf
   split; · exact hf
+  split; · exact hf
   split
   · exact notify_ok _ _ (rawDelList_ok f m its _ hf hits)
   · exact rawDelList_ok f m its _ hf hits
@@ -287,6 +288,7 @@ theorem delItemList_free (f : Forest) (n : Bool) (m : Meta) (its : Items) (idx :
     (hf : f.rootsFree = true) : (delItemList Cfg.patched f n m its idx acc).forest.rootsFree = true := by
   unfold delItemList
   simp only
+  split; · exact hf
   split; · exact hf
   split; · exact hf
   split; · exact hf
